@@ -67,7 +67,8 @@ impl Transport {
 		if !self.playing {
 			return;
 		}
-		self.position += 1;
+		// a position that saturated at usize::MAX stays there
+		self.position = self.position.saturating_add(1);
 		if let Some((loop_start, loop_end)) = self.loop_region {
 			if self.position >= loop_end {
 				// move back by whole loop lengths to the first position before the loop end
